@@ -63,7 +63,7 @@ PROP = {
         {"name": "c02.days", "args_thorough": ["all"]},    # civil day -> lunar day -> civil day
         {"name": "c02.lunar", "args_thorough": ["all"]},   # accepted lunar day -> civil day -> lunar day (+ refusals of day 0/31)
     ],
-    "ops": c02_ops,
+    "ops": with_extra(c02_ops, eq_kinds=(6, 7, 8), objhist=(1,)),
     "exhaustive": False,
     "rule": "c02.days: every civil date of the selected years (quick: years 1..300, every 10th year, 1575..1590, 9997..9999 = ~470k days; "
             "thorough: all 3,652,061) with its lunar date and the civil date that converts back to; c02.lunar: every lunar (year, month, day 0..31) "
